@@ -12,6 +12,7 @@ OBLIGATIONS = [
     "Pkgcore.C45.affected_eq_spec_counterexample",
     "Pkgcore.C45.malformed_range_skips_entry",
     "Pkgcore.C45.op_table",
+    "Pkgcore.C45.directory_eq_loose_spec",
 ]
 TRUSTED = [
     "XML parsing (lxml) and version lexing (cpv.VersionedCPV) are glue: range nodes reach the model as (operator, slot, glob flag, fullver text, lexed "
@@ -25,7 +26,9 @@ ASSUMPTIONS = [
     "the slot attribute names a concrete slot (slot=\"*\", which portage reads as 'any slot', is taken literally by the code and not generated)",
     "package entry names are plain category/package",
 ]
-RULE = ("random advisory files: 1-3 <package> entries over 3 package names, 0-3 vulnerable and 0-2 unaffected ranges each, every operator "
+RULE = ("random advisory files, alone and in directories of 2-6 files read by one GlsaDirSet object that is iterated twice and then grouped (the directory's "
+        "advisories keep coming back to a few version texts: named exactly in one, as a glob in the next, with and without slot, vulnerable and unaffected); "
+        "per file 1-3 <package> entries over 3 package names, 0-3 vulnerable and 0-2 unaffected ranges each, every operator "
         "(lt le eq ge gt rlt rle rge rgt), versions taken from / near the installed set with and without revisions (incl. -r0), eq globs, slots, arch lists "
         "('*', empty, one, several), malformed ranges (unknown operator, missing or invalid version, glob with a non-eq operator, rlt of revision 0); "
         "12 installed packages per case over the same names; non-trivial = an evaluated entry that flags at least one but not all packages of its name")
@@ -77,9 +80,13 @@ def fullver(v, rev):
     return render_ver(v) + ("-r" + rev if rev else "")
 
 
-def gen_range(rng, pool_versions):
+def gen_range(rng, pool_versions, shared=None):
+    """`shared`: the few version texts the advisories of one directory keep coming back to (an upstream release line
+    named exactly in one advisory, as a glob in the next, with and without slot, as vulnerable and as unaffected)"""
     k = rng.random()
     op = rng.choice(OPS) if k < 0.97 else rng.choice(BAD_OPS)
+    if shared and rng.random() < 0.4:
+        op = "eq"
     slot = rng.choice(SLOTS) if rng.random() < 0.3 else ""
     node = {"op": op, "slot": slot, "text": None, "_xml_text": None}
     t = rng.random()
@@ -93,8 +100,11 @@ def gen_range(rng, pool_versions):
     v, rev = rng.choice(pool_versions) if rng.random() < 0.7 else (rng.choice(VERS), rng.choice(REVS))
     if rng.random() < 0.3:
         rev = rng.choice(REVS)
-    glob = rng.random() < (0.6 if op == "eq" else 0.04)
-    if glob and rng.random() < 0.7:
+    from_shared = bool(shared) and rng.random() < 0.7
+    if from_shared:
+        v, rev = rng.choice(shared)
+    glob = rng.random() < ((0.5 if from_shared else 0.6) if op == "eq" else 0.04)
+    if glob and not from_shared and rng.random() < 0.7:
         # shorten the version so that the prefix relation is interesting
         v = {"comps": v["comps"][: rng.randint(1, len(v["comps"]))], "letter": None, "sufs": []} if rng.random() < 0.7 else \
             {"comps": v["comps"], "letter": None, "sufs": [[s, ""] for s, _ in v["sufs"][:1]]}
@@ -105,7 +115,7 @@ def gen_range(rng, pool_versions):
     return node
 
 
-def gen_entry(rng, pool):
+def gen_entry(rng, pool, shared=None):
     key = rng.choice(KEYS)
     versions = [(p["ver"], p["rev"]) for p in pool if p["key"] == key] or [(rng.choice(VERS), "")]
     name, name_ok = key, True
@@ -116,8 +126,20 @@ def gen_entry(rng, pool):
     nv = rng.choice([0, 1, 1, 1, 2, 2, 3])
     nu = rng.choice([0, 0, 1, 1, 2])
     return {"name": name, "nameOk": name_ok, "arch": arch,
-            "vulnerable": [gen_range(rng, versions) for _ in range(nv)],
-            "unaffected": [gen_range(rng, versions) for _ in range(nu)]}
+            "vulnerable": [gen_range(rng, versions, shared) for _ in range(nv)],
+            "unaffected": [gen_range(rng, versions, shared) for _ in range(nu)]}
+
+
+def gen_directory(rng, pool):
+    """a GLSA directory: several advisory files read by one GlsaDirSet object"""
+    shared = []
+    for _ in range(rng.choice([1, 2, 2, 3])):
+        v, rev = (lambda p: (p["ver"], p["rev"]))(rng.choice(pool)) if rng.random() < 0.6 else (rng.choice(VERS), rng.choice(REVS))
+        if rng.random() < 0.6:
+            # a release line: the version cut to its first components
+            v, rev = {"comps": v["comps"][: rng.randint(1, len(v["comps"]))], "letter": None, "sufs": []}, ""
+        shared.append((v, rev))
+    return [[gen_entry(rng, pool, shared) for _ in range(rng.choice([1, 1, 2, 3]))] for _ in range(rng.choice([2, 3, 4, 6]))]
 
 
 def gen_pkg(rng):
@@ -168,10 +190,22 @@ CORPUS = [
 ]
 
 
-def xml_of(entries, rng):
+# directories of several advisories read by one object: the same version named exactly and as a glob, with and without
+# slot, as vulnerable and as unaffected range, in either file order
+CORPUS_DIRS = [
+    [[entry([rnode("eq", "1.2", ver=V["1.2"])])], [entry([rnode("eq", "1.2*", glob=True, ver=V["1.2"])], name="dev-libs/bar")],
+     [entry([rnode("eq", "1.2*", glob=True, ver=V["1.2"])])]],
+    [[entry([rnode("eq", "1.2*", glob=True, ver=V["1.2"])])], [entry([rnode("eq", "1.2", ver=V["1.2"])])],
+     [entry([rnode("lt", "2", ver=V["2"])], [rnode("eq", "1.2", ver=V["1.2"])]), entry([rnode("lt", "2", ver=V["2"])], [rnode("eq", "1.2*", glob=True, ver=V["1.2"])])]],
+    [[entry([rnode("eq", "1.0", slot="2", ver=V["1.0"])]), entry([rnode("eq", "1.0", ver=V["1.0"])])],
+     [entry([rnode("le", "1.0", ver=V["1.0"])]), entry([rnode("rle", "1.0", ver=V["1.0"])]), entry([rnode("ge", "1.0", ver=V["1.0"])], [rnode("rge", "1.0", ver=V["1.0"])])]],
+]
+
+
+def xml_of(entries, rng, glsa_id="200001-01"):
     def ws(s):
         return rng.choice(["", "", " ", "\n  "]) + s + rng.choice(["", "", " ", "\n"])
-    out = ['<?xml version="1.0" encoding="UTF-8"?>\n<glsa id="200001-01">\n<title>t</title>\n<affected>\n']
+    out = ['<?xml version="1.0" encoding="UTF-8"?>\n<glsa id="%s">\n<title>t</title>\n<affected>\n' % glsa_id]
     for e in entries:
         arch = "" if e["arch"] is None else ' arch="%s"' % ws(" ".join(e["arch"]))
         out.append('<package name="%s" auto="yes"%s>\n' % (ws(e["name"]), arch))
@@ -198,18 +232,24 @@ def run(ctx):
     from pkgcore.test.misc import FakePkg
 
     rng = ctx.rng
+    # a case = (advisory files of one directory, each a list of <package> entries; installed packages)
     cases = []
     if ctx.replay_cases:
-        cases += [(c["entries"], c["pkgs"]) for c in ctx.replay_cases if "entries" in c]
-    cases += [(es, CORPUS_PKGS) for es in CORPUS]
-    for _ in range(ctx.n(1500, 40000)):
+        cases += [([c["entries"]], c["pkgs"]) for c in ctx.replay_cases if "entries" in c]
+        cases += [(c["files"], c["pkgs"]) for c in ctx.replay_cases if "files" in c]
+    cases += [([es], CORPUS_PKGS) for es in CORPUS]
+    cases += [(fs, CORPUS_PKGS) for fs in CORPUS_DIRS]
+    for _ in range(ctx.n(1000, 30000)):
         pool = [gen_pkg(rng) for _ in range(12)]
-        cases.append(([gen_entry(rng, pool) for _ in range(rng.choice([1, 1, 2, 3]))], pool))
+        cases.append(([[gen_entry(rng, pool) for _ in range(rng.choice([1, 1, 2, 3]))]], pool))
+    for _ in range(ctx.n(160, 3000)):
+        pool = [gen_pkg(rng) for _ in range(12)]
+        cases.append((gen_directory(rng, pool), pool))
 
     # calibration: the structured version texts against the real VersionedCPV, names against atom()
     seen = set()
-    for entries, _ in cases:
-        for e in entries:
+    for files, _ in cases:
+        for e in (e for f in files for e in f):
             if (e["name"], e["nameOk"]) not in seen:
                 seen.add((e["name"], e["nameOk"]))
                 try:
@@ -236,19 +276,23 @@ def run(ctx):
                     ctx.mismatch({"version_text": t}, f"version table disagrees with VersionedCPV: {got} vs {want}")
                     return
 
+    # the model / reference evaluate entry by entry; a directory is the concatenation of its files' entries
     reqs = [{"cmd": "c45.eval", "entries": [{"name": e["name"], "nameOk": e["nameOk"], "arch": e["arch"],
                                              "vulnerable": [strip_node(n) for n in e["vulnerable"]],
-                                             "unaffected": [strip_node(n) for n in e["unaffected"]]} for e in entries],
+                                             "unaffected": [strip_node(n) for n in e["unaffected"]]} for f in files for e in f],
              "pkgs": [{"key": p["key"], "fullver": fullver(p["ver"], p["rev"]), "ver": p["ver"], "rev": p["rev"], "slot": p["slot"],
-                       "keywords": p["keywords"]} for p in pkgs]} for entries, pkgs in cases]
+                       "keywords": p["keywords"]} for p in pkgs]} for files, pkgs in cases]
     replies = ctx.model(reqs)
 
     scratch = tempfile.mkdtemp(prefix="verif-c45-")
     pkg_cache = {}
     try:
-        for idx, ((entries, pkgs), rep) in enumerate(zip(cases, replies)):
-            pub = {"entries": entries, "pkgs": pkgs,
-                   "installed": [f"{p['key']}-{fullver(p['ver'], p['rev'])}:{p['slot']} {p['keywords']}" for p in pkgs]}
+        for idx, ((files, pkgs), rep) in enumerate(zip(cases, replies)):
+            pub = {"pkgs": pkgs, "installed": [f"{p['key']}-{fullver(p['ver'], p['rev'])}:{p['slot']} {p['keywords']}" for p in pkgs]}
+            if len(files) == 1:
+                pub["entries"] = files[0]
+            else:
+                pub["files"] = files
             if rep == "bad-op":
                 ctx.mismatch(pub, "driver rejected the request")
                 continue
@@ -260,29 +304,46 @@ def run(ctx):
                 real_pkgs.append(pkg_cache[k])
             d = os.path.join(scratch, "g%d" % idx)
             os.mkdir(d)
-            xml = xml_of(entries, rng)
-            with open(os.path.join(d, "glsa-200001-01.xml"), "w") as f:
-                f.write(xml)
+            ids, xmls = [], []
+            for fi, entries in enumerate(files):
+                gid = "2000%02d-%02d" % (1 + fi % 12, 1 + fi // 12)
+                xml = xml_of(entries, rng, gid)
+                with open(os.path.join(d, f"glsa-{gid}.xml"), "w") as f:
+                    f.write(xml)
+                ids.append(gid)
+                xmls.append(xml)
             if rng.random() < 0.2:
                 with open(os.path.join(d, "timestamp.chk"), "w") as f:
                     f.write("x\n")
-            pub["xml"] = xml
+            pub["xml"] = xmls[0] if len(xmls) == 1 else xmls
             try:
+                # one long-lived object per directory: iterated, iterated again, grouped
                 g = GlsaDirSet(d)
                 rs = list(g)
                 real = [[bool(r.match(p)) for p in real_pkgs] for r in rs]
                 rkeys = [r.key for r in rs]
+                order = [x[0] for x in g.iter_vulnerabilities()]              # which advisory each restriction came from
+                rs2 = list(g)
+                real2 = [(r.key, [bool(r.match(p)) for p in real_pkgs]) for r in rs2]
                 grouped = {r.key: [bool(r.match(p)) for p in real_pkgs] for r in g.pkg_grouped_iter()}
             except Exception as e:
                 ctx.violation(pub, f"GlsaDirSet raised {type(e).__name__}: {e}")
                 continue
             finally:
                 shutil.rmtree(d, ignore_errors=True)
-            model = [(e["name"], r["model"]) for e, r in zip(entries, rep) if r["model"] is not None]
-            spec = [(e["name"], r["spec"]) for e, r in zip(entries, rep) if r["spec"] is not None]
-            loose = [(e["name"], r["loose"]) for e, r in zip(entries, rep) if r["loose"] is not None]
+            # per advisory file, in file order
+            per_entry = []
+            for gid, entries in zip(ids, files):
+                per_entry += [(gid, e) for e in entries]
+            def by_file(kind):
+                out = {gid: [] for gid in ids}
+                for (gid, e), r in zip(per_entry, rep):
+                    if r[kind] is not None:
+                        out[gid].append((e["name"], r[kind]))
+                return out
+            model, spec, loose = by_file("model"), by_file("spec"), by_file("loose")
             nontriv = False
-            for e, r in zip(entries, rep):
+            for (gid, e), r in zip(per_entry, rep):
                 ctx.count("entry_" + ("skipped_or_empty" if r["spec"] is None else "evaluated"))
                 for n in e["vulnerable"] + e["unaffected"]:
                     ctx.count("op_" + (n["op"] if n["op"] in OPS else "bad"))
@@ -297,22 +358,46 @@ def run(ctx):
                     mine = [x for x, p in zip(r["spec"], pkgs) if p["key"] == e["name"]]
                     if any(mine) and not all(mine):
                         nontriv = True
-            ctx.case(pub, nontriv, key=xml + "|" + "|".join(pub["installed"]))
-            got = list(zip(rkeys, real))
-            # the property on the real code
-            if got != [(k, v) for k, v in spec]:
-                if got == [(k, v) for k, v in loose]:
+            ctx.count("advisory_files_%d" % min(len(files), 6))
+            if len(files) > 1:
+                # the same version text named exactly and as a glob somewhere in the directory
+                texts = [n["_xml_text"] for _, e in per_entry for n in e["vulnerable"] + e["unaffected"] if n["_xml_text"]]
+                if any(t.endswith("*") and t[:-1] in texts for t in texts):
+                    ctx.count("directory_same_text_exact_and_glob")
+                if len(texts) != len(set(texts)):
+                    ctx.count("directory_repeated_range_text")
+            ctx.case(pub, nontriv, key="".join(xmls) + "|" + "|".join(pub["installed"]))
+            if len(order) != len(rs):
+                ctx.mismatch(pub, f"iter_vulnerabilities yields {len(order)} restrictions, __iter__ {len(rs)}")
+                continue
+            got = {gid: [] for gid in ids}
+            stray = [o for o in order if o not in got]
+            if stray:
+                ctx.violation(pub, f"restrictions for advisories {stray} that are not in the directory")
+                continue
+            for gid, k, v in zip(order, rkeys, real):
+                got[gid].append((k, v))
+            # the property on the real code: every advisory of the directory, judged on its own
+            if got != spec:
+                bad = [gid for gid in ids if got[gid] != spec[gid]]
+                if got == loose:
                     ctx.count("finding_glob_string_prefix")
                     ctx.violation(pub, "an 'eq …*' range flags a package whose version merely starts with the same characters "
-                                       f"(real={got}, component-prefix reference={spec})", finding="C45-glob-string-prefix")
+                                       f"(advisories {bad}: real={[got[b] for b in bad]}, component-prefix reference={[spec[b] for b in bad]})",
+                                  finding="C45-glob-string-prefix")
                 else:
-                    ctx.violation(pub, f"GlsaDirSet restrictions flag {got}, the GLSA reference evaluator says {spec}")
+                    ctx.violation(pub, f"advisories {bad}: GlsaDirSet restrictions flag {[got[b] for b in bad]}, the GLSA reference evaluator says "
+                                       f"{[spec[b] for b in bad]}" + (" (each advisory judged on its own; the directory holds %d)" % len(ids) if len(ids) > 1 else ""))
+            # iterating the same object again gives the same answer
+            if real2 != list(zip(rkeys, real)):
+                ctx.violation(pub, f"a second iteration of the same GlsaDirSet flags {real2}, the first one {list(zip(rkeys, real))}")
             # model vs code
-            if got != [(k, v) for k, v in model]:
-                ctx.mismatch(pub, f"GlsaDirSet restrictions flag {got}, the Lean model says {model}")
+            if got != model:
+                bad = [gid for gid in ids if got[gid] != model[gid]]
+                ctx.mismatch(pub, f"advisories {bad}: GlsaDirSet restrictions flag {[got[b] for b in bad]}, the Lean model says {[model[b] for b in bad]}")
             # grouped iteration = any of the individual restrictions of that name
             want_grouped = {}
-            for k, v in got:
+            for k, v in zip(rkeys, real):
                 want_grouped[k] = [a or b for a, b in zip(want_grouped.get(k, [False] * len(v)), v)]
             if grouped != want_grouped:
                 ctx.violation(pub, f"pkg_grouped_iter flags {grouped}, the individual restrictions {want_grouped}")
@@ -324,7 +409,8 @@ LEVEL_TEXT = ("Kernel-checked Lean 4 theorems about a model of generate_restrict
               "package entry and every package, the restriction built by the code flags the package iff the GLSA reference evaluator does (name, at least "
               "one vulnerable range, no unaffected range, arch; lt/le/eq/ge/gt on the PMS order of C01, r-forms on revisions of the same version, slot "
               "limits every kind of range) — with the glob range as a string prefix (affected_eq_loose_spec), and with the component-prefix reading "
-              "under the guard of the open finding (affected_eq_spec_partial, counterexample proved); malformed ranges skip the entry. The model is tied "
-              "to the code by reading generated XML advisories with the real GlsaDirSet.")
+              "under the guard of the open finding (affected_eq_spec_partial, counterexample proved); malformed ranges skip the entry; a directory of "
+              "advisories is judged entry by entry, whatever else it holds (directory_eq_loose_spec). The model is tied "
+              "to the code by reading generated XML advisories — single files and multi-file directories on one long-lived object — with the real GlsaDirSet.")
 LEVEL_NOTE = ("Partial: 'eq 1.2*' is a string prefix in the code (1.2* flags 1.20); the existing test-suite pins that behaviour, so it is an open known "
               "finding, not fixed. Trusted: Lean kernel; XML parsing and version lexing as structured input (calibrated every run); C01 for the order.")
